@@ -11,7 +11,7 @@ echo "=== $(date +%T) mutation $P" >> "$OUT"
 cd /verif
 for spec in "$@"; do
   c="${spec%%:*}"; only=""; [[ "$spec" == *:* ]] && only="--only ${spec#*:}"
-  VERIF_REPO=$W timeout 3600 ./check "$c" --no-evidence $only > $W.log 2>&1
+  VERIF_QUICK_BUDGET_S=${VERIF_QUICK_BUDGET_S:-3000} VERIF_REPO=$W timeout 3600 ./check "$c" --no-evidence $only > $W.log 2>&1
   rc=$?
   echo "--- check $spec rc=$rc" >> "$OUT"
   grep -E "VIOLATION|violated:|INCONCLUSIVE|KNOWN-FINDING|tier=" $W.log | cut -c1-400 >> "$OUT"
